@@ -100,13 +100,14 @@ type recorder struct {
 	comps []string
 	src   string // "f" = completion issued by framework code, "h" = by a zoo handler
 	beh   string
+	hc    string // "helper": the zoo handlers complete through apientry.CheckInvokeCBFunc (as every handler of the repository does), else they call the function themselves
 	later []func()
 }
 
 var R = &recorder{src: "f"}
 
 func (r *recorder) reset(beh string) {
-	r.ran, r.comps, r.later, r.src, r.beh = nil, nil, nil, "f", beh
+	r.ran, r.comps, r.later, r.src, r.beh, r.hc = nil, nil, nil, "f", beh, ""
 }
 
 func hx16(s string) string { return hex.EncodeToString([]byte(s)) }
@@ -169,9 +170,12 @@ var scripts = map[string]script{
 	"errpanic":   {comps: []bool{false}, panics: true},
 	"errbad":     {comps: []bool{false, true}, bad: true},
 	"twicepanic": {comps: []bool{true, true}, panics: true},
+	// completes AFTER the call returned, with the value a picky completion function (the dispatcher's closure) panics on:
+	// there is no SafeCall above a late completion
+	"latebad": {comps: []bool{true}, late: true, bad: true},
 }
 
-var behNames = []string{"ok", "err", "twice", "errok", "none", "panic", "nilpan", "okpanic", "late", "badval", "errpanic", "errbad", "twicepanic"}
+var behNames = []string{"ok", "err", "twice", "errok", "none", "panic", "nilpan", "okpanic", "late", "badval", "errpanic", "errbad", "twicepanic", "latebad"}
 
 var okValue = func() interface{} { return &msgs.TestHello{I: 99, S: "r"} }
 
@@ -186,14 +190,23 @@ func act(id string, tag int, ctx interface{}, msg interface{}, cb CB) {
 		prev := R.src
 		R.src = "h"
 		defer func() { R.src = prev }()
+		// how the handler reports: through the repository's helper (nil test, then the call; a panic of the completion
+		// function must come back out of it, CallMethod's `completed` logic relies on that) or by calling cb itself
+		invoke := func(e error, v interface{}) {
+			if R.hc == "helper" {
+				apientry.CheckInvokeCBFunc(cb, e, v)
+			} else {
+				cb(e, v)
+			}
+		}
 		if ok {
 			if sc.bad {
-				cb(nil, &MsgA{Abc: "not a proto message"})
+				invoke(nil, &MsgA{Abc: "not a proto message"})
 			} else {
-				cb(nil, okValue())
+				invoke(nil, okValue())
 			}
 		} else {
-			cb(errors.New("handler error"), nil)
+			invoke(errors.New("handler error"), nil)
 		}
 	}
 	for _, c := range sc.comps {
